@@ -197,7 +197,13 @@ def run_comp(item, res, I, vs, s, rng):
             sp = I.call(SequenceParameters, [s], {})
             if symbolic:
                 return I.call(sp.get_linear_sequence_composition, [w, [groups[0], groups[1]]], {})
-            return I.call(sp.get_linear_sequence_composition, [w], {})
+            first = I.call(sp.get_linear_sequence_composition, [w], {})
+            if w > N:
+                return first
+            # a second default call (another object, same process): the shared default group lists are in their used state now
+            sp2 = I.call(SequenceParameters, [s], {})
+            second = I.call(sp2.get_linear_sequence_composition, [w], {})
+            return ("__two__", first, second)
 
         def on_raise(ob, exc, m, w=w):
             res["obligations"] += 1
@@ -213,6 +219,10 @@ def run_comp(item, res, I, vs, s, rng):
                 c = cex(m); c["label"] = "composition(%d) answered for N=%d" % (w, N); res["candidates"].append(c)
                 return
             lab = "composition(w=%d,N=%d,%s)" % (w, N, item["groups"])
+            if isinstance(val, tuple) and len(val) == 3 and isinstance(val[0], str) and val[0] == "__two__":
+                e_ = sym_equal(I, val[2], val[1], TOL)
+                ob.prove(zbool(e_) if e_ is not None else False, lab + ": a second default call returns the same profile as the first", lambda mm: dict(cex(mm), second_call=True))
+                val = val[1]
             ok = isinstance(val, tuple) and len(val) == 2
             rows = None
             if ok:
@@ -290,6 +300,12 @@ def replay(cex):
         return abs(d - tot) > TOL, "seq=%s delta=%r from profiles=%r" % (seq, d, tot)
     w = cex["w"]
     groups = cex.get("groups")
+    if cex.get("second_call"):
+        a = SequenceParameters(seq).get_linear_sequence_composition(w)
+        b = SequenceParameters(seq).get_linear_sequence_composition(w)
+        c = SequenceParameters(seq).get_linear_sequence_composition(w)
+        same = all(np.asarray(x[1]).shape == np.asarray(a[1]).shape and np.allclose(np.asarray(x[1]), np.asarray(a[1])) for x in (b, c)) and np.asarray(a[1]).shape == (7, N)
+        return not same, "consecutive default get_linear_sequence_composition(%d) calls on %s give shapes %r" % (w, seq, [np.asarray(x[1]).shape for x in (a, b, c)])
     try:
         if fn == "get_linear_sequence_composition":
             out = sp.get_linear_sequence_composition(w, [list(g) for g in groups]) if groups is not None else SequenceParameters(seq).get_linear_sequence_composition(w, [list(g) for g in DEFAULT_GROUPS])
